@@ -24,7 +24,8 @@
 EXTENDS CacheMap, Json, IOUtils, SequencesExt
 
 CONSTANTS MaxLen,   \* bound on the length of generated histories
-          Emit      \* print every generated history of length MaxLen (simulation mode)
+          Emit,     \* print every generated history of length MaxLen (simulation mode)
+          Faults    \* a run_tasks call may have one task whose run() raises
 
 Universes == JsonDeserialize(IOEnv.LV_UNIVERSES)
 
@@ -45,19 +46,20 @@ Init == /\ ui \in 1..Len(Universes)
 
 GenMeta(t) == <<"m", clock + 1, t>>
 
-Run(req, bust) ==
+Run(req, bust, F) ==
   /\ clock' = clock + 1
-  /\ store' = StoreAfterRun(u, store, req, bust, clock + 1, GenMeta)
-  /\ hist' = Append(hist, [op |-> "run", req |-> req, bust |-> bust, ts |-> <<>>])
+  /\ store' = StoreAfterRunF(u, store, req, bust, clock + 1, GenMeta, F)
+  /\ hist' = Append(hist, [op |-> "run", req |-> req, bust |-> bust, ts |-> <<>>, fail |-> SetToSeq(F)])
   /\ UNCHANGED <<ui, u>>
 
 Uncache(S) ==
   /\ store' = StoreAfterUncache(u, store, S)
-  /\ hist' = Append(hist, [op |-> "uncache", req |-> <<>>, bust |-> FALSE, ts |-> SetToSeq(S)])
+  /\ hist' = Append(hist, [op |-> "uncache", req |-> <<>>, bust |-> FALSE, ts |-> SetToSeq(S), fail |-> <<>>])
   /\ UNCHANGED <<ui, u, clock>>
 
 Next == /\ Len(hist) < MaxLen
-        /\ \/ \E req \in ReqLists(u), bust \in BOOLEAN : Run(req, bust)
+        /\ \/ \E req \in ReqLists(u), bust \in BOOLEAN :
+                 \E F \in {{}} \cup (IF Faults /\ ~u.twins THEN {{t} : t \in TasksOf(u)} ELSE {}) : Run(req, bust, F)
            \/ \E S \in (SUBSET TasksOf(u)) \ {{}} : Uncache(S)
 
 Spec == Init /\ [][Next]_hvars
@@ -71,7 +73,7 @@ OnlyOwnEntryChanges ==
   [][\A t \in TasksOf(u) : store'[t] # store[t] =>
         LET h == hist'[Len(hist')] IN
         \/ h.op = "uncache" /\ t \in SetOf(h.ts) /\ store'[t] = <<>>
-        \/ h.op = "run" /\ t \in Executed(u, store, h.req, h.bust) /\ CacheableIn(u, t)]_hvars
+        \/ h.op = "run" /\ t \in OkExecuted(u, store, h.req, h.bust, SetOf(h.fail)) /\ CacheableIn(u, t)]_hvars
 PrintHistory == (Emit /\ Len(hist) = MaxLen /\ hist[1].op = "run") =>
                    PrintT("@@" \o ToJson([ui |-> ui, hist |-> hist]))
 =============================================================================
